@@ -205,6 +205,14 @@ Step ==
      IF e.ev = "Reset"
      THEN /\ cfg' = e.cfg /\ ok' = TRUE
           /\ st' = [InitSt(e.cfg) EXCEPT !.status = e.obs.procs]
+     ELSE IF e.ev = "Probe"
+     THEN \* two callers hand one token back and forth through the backlog (limit 1, nobody else): whenever an Acquire returns
+          \* granted the caller has left the backlog - the backlog it reads at that moment is empty (C12)
+          /\ UNCHANGED <<ok, cfg, st>>
+          /\ e.nonempty > 0 =>
+                PrintT(<<"REJECT", ToJson([trace |-> e.trace, line |-> l, i |-> e.i, class |-> "backlog",
+                                           why |-> "a caller whose Acquire had returned granted was still counted in the backlog", p |-> "",
+                                           known |-> "", step |-> [a |-> "probe", handoffs |-> e.handoffs, nonempty |-> e.nonempty], obs |-> e.obs])>>)
      ELSE IF ~ok THEN UNCHANGED <<ok, cfg, st>>
      ELSE IF e.ev = "End"
      THEN /\ UNCHANGED <<ok, cfg, st>>
